@@ -145,6 +145,9 @@ def run_c16(version, tier, seed, escalate, T):
                         argsets.append((f"aaq:{val}", {"object_attributes": val, "armour_attack_class": 3, "armour_attack_quantity": 5}))
                         argsets.append((f"aaq-q:{val}", {"object_attributes": val, "quantity": 773}))
                         argsets.append((f"aaq-none:{val}", {"object_attributes": val}))
+                        # exactly one half of the armour/attack pair supplied: it is a supplied argument like any other
+                        argsets.append((f"aaq-class-only:{val}", {"object_attributes": val, "armour_attack_class": 3}))
+                        argsets.append((f"aaq-quantity-only:{val}", {"object_attributes": val, "armour_attack_quantity": 5}))
                 n_rand = (2 if quick else 8) * (3 if escalate else 1)
                 for j in range(n_rand):
                     if len(params) >= 2:
